@@ -460,6 +460,29 @@ fn select_n_nodes(
         dc_count -= 1;
     }
 
+    // The even spread above can come up short, i.e. when a cycler lands on the local
+    // node or on a node which has already been picked. Top up from any eligible node
+    // which is left rather than failing while enough live nodes exist.
+    if selected_nodes.len() < n {
+        for (dc, dc_nodes) in data_centers.iter_mut() {
+            if can_skip_local_dc && dc.as_ref() == local_dc {
+                continue;
+            }
+
+            for _ in 0..dc_nodes.len() {
+                if selected_nodes.len() >= n {
+                    break;
+                }
+
+                if let Some(node) = dc_nodes.next() {
+                    if node != local_node && !selected_nodes.contains(&node) {
+                        selected_nodes.push(node);
+                    }
+                }
+            }
+        }
+    }
+
     if selected_nodes.len() >= n {
         debug!(selected_node = ?selected_nodes, "Nodes have been selected for the given parameters.");
         Ok(selected_nodes)
